@@ -15,6 +15,21 @@ struct CommandEvents {
 
 impl Exec {
     fn pre_read_estimates(&mut self, k: u8) -> Check<Estimates> {
+        // with background readers: they are paused while the frozen estimates are read (their own keys are saturated, so
+        // their traffic does not change any estimate afterwards), then resumed so that the decision is taken under contention
+        if let Some(noise) = &self.noise {
+            noise.pause();
+            // push the harness's own still-buffered access records out of the (single) pool buffer with reads of a
+            // saturated noise key, so that nothing but noise records can reach the sketch after the estimates were read
+            let key = NOISE_KEYS[0] as u64;
+            for _ in 0..(self.cfg.buf * self.cfg.pool + 1) { let _ = self.cache.get(&key); }
+        }
+        let result = self.pre_read_estimates_quiescent(k);
+        if let Some(noise) = &self.noise { noise.resume(); }
+        result
+    }
+
+    fn pre_read_estimates_quiescent(&mut self, k: u8) -> Check<Estimates> {
         self.wait_sketch_quiescent()?;
         let mut estimates = Estimates::default();
         let cache = &self.cache;
@@ -497,7 +512,31 @@ impl Exec {
     }
 
     /// Liveness probe (C17) and drain (C05 public cross-check), then shutdown.
+    /// Puts the dedicated noise keys, saturates their estimates, then starts the background readers. From here on the
+    /// counters of the cache are no longer predictable (the readers' lookups are not modelled): counter checks stop.
+    pub fn start_noise(&mut self) -> Check {
+        if self.cfg.noise_readers == 0 { return Ok(()); }
+        for k in NOISE_KEYS {
+            self.exec_op(&Op::Put { k, w: Some(WSel::Abs(1)), ttl: None })?;
+        }
+        // saturate the estimates of the noise keys directly in the sketch (reads could be dropped on the way): from now on
+        // no amount of noise traffic changes any estimate
+        for k in NOISE_KEYS {
+            let hash = self.cache.verif_hash_of(&(k as u64));
+            for _ in 0..4 {
+                if self.cache.verif_estimate(hash) >= 16 { break; }
+                self.cache.verif_increment_access(vec![hash; 20]);
+            }
+        }
+        self.stats_broken = true;
+        self.noise = Some(Noise::start(&self.cache, &self.inst, self.cfg.noise_readers));
+        Ok(())
+    }
+
+    pub fn stop_noise(&mut self) { if let Some(noise) = self.noise.take() { noise.stop(); } }
+
     pub fn finish(&mut self, drain: bool) -> Check {
+        self.stop_noise();
         // command worker alive: a delete of a key nobody wrote completes
         let pending = self.issue_delete(250)?.unwrap();
         self.complete_pending(vec![pending], None)?;
@@ -523,6 +562,7 @@ impl Exec {
     }
 
     pub fn shutdown(&mut self) {
+        self.stop_noise();
         self.inst.worker_gate.open();
         self.inst.sweeper_gate.open();
         let _ = catch_unwind(AssertUnwindSafe(|| self.cache.shutdown()));
@@ -593,7 +633,9 @@ fn run_seq_case_inner(case: &SeqCase, policy: &Policy, focus: &str) -> SeqOutcom
     let mut exec = Exec::new(&case.cfg, policy);
     exec.focus = focus.to_string();
     let mut failure = None;
+    if let Err(mut error) = exec.start_noise() { error.at_op = 0; failure = Some(error); }
     for (index, op) in case.ops.iter().enumerate() {
+        if failure.is_some() { break; }
         exec.op_index = index;
         if let Err(mut error) = exec.exec_op(op) {
             error.at_op = index;
